@@ -188,9 +188,37 @@ struct TreeGen {
 	}
 	// root: mostly a container
 	Val root() { return value(0, c.coin(75)); }
+	bool f_wide = false;
+	Val scalar()
+	{
+		switch (c.pick({o.nulls ? 2u : 0u, 2, 8, 6}))
+		{
+		case 0: return Val::null();
+		case 1: return Val::boolean(c.coin(50));
+		case 2: return leaf_number();
+		default: return Val::str(bytes_string(14, true));
+		}
+	}
+	// containers with 9..70 (rarely 600) scalar children: array and hash-table growth points
+	Val wide(bool array)
+	{
+		f_wide = true;
+		size_t n = c.coin(10) ? (size_t)c.range(70, 600) : (size_t)c.range(9, 70);
+		Val v = array ? Val::arr() : Val::obj();
+		for (size_t i = 0; i < n; i++)
+		{
+			if (array)
+				v.a.push_back(scalar());
+			else
+				v.set(o.key_pool.empty() ? "k" + std::to_string(i) : o.key_pool[c.pickn(o.key_pool.size())] + std::to_string(i), scalar());
+		}
+		return v;
+	}
 	Val value(int depth, bool want_container = false)
 	{
 		nodes++;
+		if (depth < o.max_depth && c.coin(2))
+			return wide(c.coin(50));
 		bool can_nest = depth < o.max_depth && nodes < o.max_nodes;
 		size_t kind = (want_container && can_nest) ? 4 + c.pickn(2)
 		                                           : c.pick({o.nulls ? 6u : 0u, 6, 30, 22, can_nest ? 22u : 0u, can_nest ? 22u : 0u});
